@@ -21,6 +21,11 @@ Script ==
             <<"gen", 2, Ins(1, 22)>>, <<"gen", 3, Ins(1, 31)>>,
             <<"dlv", 3, 3>>, <<"dlv", 2, 4>>,
             <<"gen", 3, Ins(2, 32)>> >>
+    \* an identifier whose OUTER marker is another actor's second dot: a and b each append twice concurrently (a.2 and
+    \* b.2 share a rational), c inserts between them -> path <<(1, b.2), (0, c.1)>>; replica 1 has heard of neither b nor c
+    [] ScriptName = "foreign_outer_marker" ->
+         << <<"gen", 1, Ins(0, 11)>>, <<"gen", 1, Ins(1, 12)>>, <<"gen", 2, Ins(0, 21)>>, <<"gen", 2, Ins(1, 22)>>,
+            <<"dlv", 3, 1>>, <<"dlv", 3, 2>>, <<"dlv", 3, 3>>, <<"dlv", 3, 4>>, <<"gen", 3, Ins(3, 31)>> >>
 ScriptInit == InitAfter(Script)
 
 ProjB(s) ==
